@@ -5,6 +5,7 @@ import (
 	"bytes"
 	"encoding/json"
 	"fmt"
+	"hash/fnv"
 	"testing"
 	"time"
 
@@ -27,6 +28,11 @@ type ReqSpec struct {
 	// HoldDestroy (held set only, kinds clunk/remove): the request is answered by the
 	// implementation at once but its fid's FidDestroy blocks until released
 	HoldDestroy bool `json:"holddestroy,omitempty"`
+	// Target (authentication kinds only): 0 = the request names an afid of its own
+	// (established in the prologue); k > 0 = it names the afid of Held[k-1], a request
+	// that is at that moment parked inside AuthInit / AuthRead / AuthWrite (and it
+	// travels on that request's connection)
+	Target int `json:"target,omitempty"`
 }
 
 type Case struct {
@@ -39,6 +45,9 @@ type Case struct {
 	OneChunk bool         `json:"onechunk"`          // free requests of a connection are written in one chunk
 	Stagger  string       `json:"stagger,omitempty"` // send each free request only when the previous one has reached this schedule point
 	Holds    []sched.Hold `json:"holds,omitempty"`
+	// Auth: the implementation also provides go9p's AuthOps; the authentication kinds
+	// (authKinds) exist only then
+	Auth bool `json:"auth,omitempty"`
 }
 
 const deadline = 20 * time.Second
@@ -80,12 +89,60 @@ func build(kind string, fid uint32) (m *ref9p.Msg, prepName string, prepOpen int
 	return nil, "", -1
 }
 
+// Authentication kinds. "auth" is a Tauth (AuthInit), "aread" / "awrite" a Tread /
+// Twrite of an afid (AuthRead / AuthWrite), "aclunk" a Tclunk of an afid (AuthDestroy),
+// "attachafid" a Tattach presenting an afid (AuthCheck, then the ordinary Attach). The
+// first three can be held: they park inside the authentication callback itself.
+var authHeldKinds = []string{"auth", "aread", "awrite"}
+var authFreeKinds = []string{"auth", "aread", "awrite", "aclunk", "attachafid"}
+
+func isAuthKind(k string) bool {
+	for _, a := range authFreeKinds {
+		if a == k {
+			return true
+		}
+	}
+	return false
+}
+
+func fnv64a(s string) uint64 {
+	h := fnv.New64a()
+	h.Write([]byte(s))
+	return h.Sum64()
+}
+
+// buildAuth: the request of an authentication kind. fid is the item's own number
+// (unique in the case), afid the authentication fid it names.
+func buildAuth(kind string, fid, afid uint32) (m *ref9p.Msg, key string) {
+	name := fmt.Sprintf("%d", fid)
+	switch kind {
+	case "auth":
+		return &ref9p.Msg{Type: ref9p.Tauth, Afid: afid, Uname: "alice", Aname: "an" + name, Nuname: 1001}, "authinit/an" + name
+	case "aread":
+		off := uint64(fid) << 20
+		return &ref9p.Msg{Type: ref9p.Tread, Fid: afid, Offset: off, Count: 64}, fmt.Sprintf("authread/%d/%d", off, 64)
+	case "awrite":
+		off := uint64(fid) << 20
+		return &ref9p.Msg{Type: ref9p.Twrite, Fid: afid, Offset: off, Data: script.PRF("aw"+name, 40)}, fmt.Sprintf("authwrite/%d/%d", off, 40)
+	case "aclunk":
+		return &ref9p.Msg{Type: ref9p.Tclunk, Fid: afid}, ""
+	case "attachafid":
+		return &ref9p.Msg{Type: ref9p.Tattach, Fid: fid, Afid: afid, Uname: "bob", Aname: "t" + name, Nuname: 1002}, ""
+	}
+	return nil, ""
+}
+
 type item struct {
 	spec ReqSpec
 	msg  *ref9p.Msg
 	key  string
 	want []byte
 	held bool
+	// anyErr: the request names an afid whose Tauth is still inside AuthInit; the fid
+	// does not exist yet, so the answer is an Rerror (its text is C04's business)
+	anyErr bool
+	// nolog: handled by an authentication callback, which writes no enter/answer lines
+	nolog bool
 }
 
 func ftype(kind string) uint8 {
@@ -96,7 +153,7 @@ func ftype(kind string) uint8 {
 }
 
 func run(c *Case) error {
-	sv := script.NewServer(script.Config{Msize: 8192, Dotu: c.Dotu, Maxpend: c.Maxpend})
+	sv := script.NewServer(script.Config{Msize: 8192, Dotu: c.Dotu, Maxpend: c.Maxpend, Auth: c.Auth})
 	S := sv.S
 	ctl := sched.New(c.Holds)
 	defer sched.Install(ctl)()
@@ -117,9 +174,87 @@ func run(c *Case) error {
 		}
 		cls = append(cls, cl)
 	}
-	mk := func(rs ReqSpec, idx int, held bool) (*item, error) {
+	fidOf := func(conn, idx int) uint32 { return uint32(100 + 10000*conn + 2*idx) }
+	// an authentication kind: names its own afid (fid+1, made by a Tauth in the prologue;
+	// the afid of a Tauth is fid itself) or the afid of the held request Held[Target-1]
+	mkAuth := func(rs ReqSpec, idx int, held bool) (*item, error) {
+		if !c.Auth {
+			return nil, fmt.Errorf("harness: kind %q without auth", rs.Kind)
+		}
 		conn := rs.Conn % c.NConn
-		fid := uint32(100 + 10000*conn + 2*idx)
+		fid := fidOf(conn, idx)
+		afid := fid + 1
+		it := &item{spec: rs, held: held, nolog: rs.Kind != "attachafid"}
+		switch {
+		case rs.Target > 0:
+			k := rs.Target - 1
+			if k >= len(c.Held) || (held && k >= idx) || c.Held[k].Conn%c.NConn != conn || c.Held[k].Target != 0 || rs.Kind == "auth" {
+				return nil, fmt.Errorf("harness: bad target %d", rs.Target)
+			}
+			switch c.Held[k].Kind {
+			case "auth":
+				if held {
+					return nil, fmt.Errorf("harness: a request naming a pending afid cannot be held")
+				}
+				afid = fidOf(conn, k)
+				it.anyErr = true
+			case "aread", "awrite":
+				afid = fidOf(conn, k) + 1
+			default:
+				return nil, fmt.Errorf("harness: target %d is not held in an authentication callback", rs.Target)
+			}
+		case rs.Kind == "auth":
+			afid = fid
+		default:
+			r, err := cls[conn].Auth(afid, "alice", fmt.Sprintf("ap%d", fid), 1001)
+			if err != nil || r.Type != ref9p.Rauth {
+				return nil, fmt.Errorf("prologue: Tauth: %v %+v", err, r)
+			}
+		}
+		m, key := buildAuth(rs.Kind, fid, afid)
+		if m == nil || (held && rs.Kind == "aclunk") {
+			return nil, fmt.Errorf("harness: kind %q", rs.Kind)
+		}
+		m.Tag = rs.Tag
+		it.msg = m
+		cm := ref9p.Canon(m, c.Dotu)
+		b := script.Behav{Hold: held && !it.anyErr}
+		if rs.Err && rs.Kind != "awrite" && rs.Kind != "aclunk" {
+			b.Err, b.Ecode = "scripted failure", 5
+		}
+		var a *ref9p.Msg
+		switch rs.Kind {
+		case "auth":
+			a = &ref9p.Msg{Type: ref9p.Rauth, Qid: ref9p.Qid{Type: 0x08, Vers: 0, Path: fnv64a(key)}}
+		case "aread":
+			a = &ref9p.Msg{Type: ref9p.Rread, Data: script.PRF(key, 64)}
+		case "awrite":
+			a = &ref9p.Msg{Type: ref9p.Rwrite, Count: 40}
+		case "aclunk":
+			a = &ref9p.Msg{Type: ref9p.Rclunk}
+		case "attachafid":
+			key = script.Key(cm)
+			b.Async = rs.Async
+			a = script.ExpectedAnswer(cm, b, 0)
+		}
+		if b.Err != "" {
+			a = &ref9p.Msg{Type: ref9p.Rerror, Ename: b.Err, Ecode: b.Ecode}
+		}
+		it.key = key
+		if key != "" {
+			S.Set(key, b)
+		}
+		am := *a
+		am.Tag = rs.Tag
+		it.want = ref9p.Encode(&am, c.Dotu)
+		return it, nil
+	}
+	mk := func(rs ReqSpec, idx int, held bool) (*item, error) {
+		if isAuthKind(rs.Kind) {
+			return mkAuth(rs, idx, held)
+		}
+		conn := rs.Conn % c.NConn
+		fid := fidOf(conn, idx)
 		m, pn, po := build(rs.Kind, fid)
 		if m == nil {
 			return nil, fmt.Errorf("harness: kind %q", rs.Kind)
@@ -237,6 +372,13 @@ func run(c *Case) error {
 		}
 		e := q[0]
 		queues[k] = q[1:]
+		if e.it.anyErr {
+			if m.Type != ref9p.Rerror {
+				return fmt.Errorf("conn %d tag %d: %s names an afid whose Tauth is still held inside AuthInit, and was answered %s", conn, m.Tag, ref9p.TypeName(e.it.msg.Type), ref9p.TypeName(m.Type))
+			}
+			got++
+			return nil
+		}
 		if !bytes.Equal(f, e.it.want) {
 			// out of order within a tag group, or wrong content
 			for _, o := range q[1:] {
@@ -342,6 +484,9 @@ func run(c *Case) error {
 	}
 	for k, g := range groups {
 		for i := 1; i < len(g); i++ {
+			if g[i-1].nolog || g[i].nolog {
+				continue // (the wire order of their replies was checked above)
+			}
 			a, b := evs[g[i-1].key], evs[g[i].key]
 			if a == nil || b == nil {
 				return fmt.Errorf("conn %d tag %d: a group member never reached the implementation", k[0], k[1])
@@ -372,6 +517,23 @@ func classify(c *Case) bool {
 		}
 	}
 	hx.Label(fmt.Sprintf("held=%d nconn=%d maxpend=%d", len(c.Held), c.NConn, c.Maxpend))
+	if c.Auth {
+		ha, fo := 0, 0
+		for _, r := range c.Held {
+			if isAuthKind(r.Kind) {
+				ha++
+			}
+		}
+		for _, r := range append(append([]ReqSpec{}, c.Held...), c.Free...) {
+			if r.Target > 0 {
+				fo++
+			}
+		}
+		if fo > 3 {
+			fo = 3
+		}
+		hx.Label(fmt.Sprintf("auth: held-in-authcallback=%d naming-a-parked-afid=%d", ha, fo))
+	}
 	return nt
 }
 
@@ -416,7 +578,6 @@ func genCase(t *rapid.T) *Case {
 		}
 		c.Held = append(c.Held, h)
 	}
-	c.Release = rapid.Permutation(seq(nb)).Draw(t, "release")
 	// independent requests
 	nf := rapid.IntRange(0, 12).Draw(t, "nfree")
 	for i := 0; i < nf; i++ {
@@ -444,7 +605,66 @@ func genCase(t *rapid.T) *Case {
 		pos := rapid.IntRange(0, len(c.Free)).Draw(t, "gpos")
 		c.Free = append(c.Free[:pos:pos], append(members, c.Free[pos:]...)...)
 	}
+	// the implementation provides AuthOps: requests parked inside AuthInit / AuthRead /
+	// AuthWrite, and requests that name their afids (or afids of their own) meanwhile
+	if rapid.Bool().Draw(t, "auth") {
+		c.Auth = true
+		genAuth(t, c, tag)
+	}
+	c.Release = rapid.Permutation(seq(len(c.Held))).Draw(t, "release")
 	return c
+}
+
+func genAuth(t *rapid.T, c *Case, tag func(int) uint16) {
+	// held inside an authentication callback (the held set stays within 6)
+	na := rapid.IntRange(0, 3).Draw(t, "nauthheld")
+	var heads []int // indices (in Held) of held requests that own their afid
+	for i := 0; i < na && len(c.Held) < 6; i++ {
+		conn := rapid.IntRange(0, c.NConn-1).Draw(t, "aconn")
+		h := ReqSpec{Conn: conn, Kind: rapid.SampledFrom(authHeldKinds).Draw(t, "akind"), Err: rapid.IntRange(0, 5).Draw(t, "aerr") == 0}
+		// a second request parked on the afid of an earlier one (not of a pending afid:
+		// that one is refused at once)
+		var same []int
+		for _, k := range heads {
+			if c.Held[k].Kind != "auth" && c.Held[k].Conn == conn {
+				same = append(same, k)
+			}
+		}
+		if h.Kind != "auth" && len(same) > 0 && rapid.Bool().Draw(t, "asame") {
+			h.Target = 1 + rapid.SampledFrom(same).Draw(t, "atarget")
+		} else {
+			heads = append(heads, len(c.Held))
+		}
+		h.Tag = tag(conn)
+		c.Held = append(c.Held, h)
+	}
+	// issued while those are parked. A Tclunk of a parked afid is the only request
+	// naming it (what the others would be answered depends on who comes first).
+	nf := rapid.IntRange(0, 6).Draw(t, "nauthfree")
+	followers := map[int]string{} // head -> "clunk" / "other"
+	for i := 0; i < nf; i++ {
+		r := ReqSpec{Kind: rapid.SampledFrom(authFreeKinds).Draw(t, "fakind"), Async: rapid.Bool().Draw(t, "faasync"), Err: rapid.IntRange(0, 4).Draw(t, "faerr") == 0}
+		if r.Kind != "auth" && len(heads) > 0 && rapid.IntRange(0, 2).Draw(t, "fafollow") > 0 {
+			k := rapid.SampledFrom(heads).Draw(t, "fahead")
+			want := "other"
+			if r.Kind == "aclunk" {
+				want = "clunk"
+			}
+			pending := c.Held[k].Kind == "auth" // nothing exists to be clunked yet
+			if pending || followers[k] == "" || (followers[k] == "other" && want == "other") {
+				r.Target, r.Conn = k+1, c.Held[k].Conn
+				if !pending {
+					followers[k] = want
+				}
+			}
+		}
+		if r.Target == 0 {
+			r.Conn = rapid.IntRange(0, c.NConn-1).Draw(t, "faconn")
+		}
+		r.Tag = tag(r.Conn)
+		pos := rapid.IntRange(0, len(c.Free)).Draw(t, "fapos")
+		c.Free = append(c.Free[:pos:pos], append([]ReqSpec{r}, c.Free[pos:]...)...)
+	}
 }
 
 func seq(n int) []int {
